@@ -3,7 +3,7 @@
 import numpy as np
 from scipy.special import ndtr
 
-from vmon import interpose, mv, stats
+from vmon import interpose, mv, stats, uni
 from vmon.core import exc_detail, exc_mech, rng_for
 from vmon.monitors.c02 import check_correlation
 from vmon.refs import rank
@@ -159,9 +159,18 @@ def run_case(spec, ctx):
             continue
         col = V[:, j]
         fin = np.isfinite(col)
-        d = stats.ks_distance_fp(col[fin], u.cdf, float(np.abs(dfc[c]).max())) + (1 - fin.mean())
-        ctx.check(d <= eps, 'sample.marginal-dkw', 'C01:sampled-column-not-distributed-as-fitted-marginal',
-                  lambda: dict(where, column=repr(c), marginal=type(u).__name__, ks=d, band=eps))
+        d = stats.ks_distance_fp(col[fin], u.cdf, max(float(np.abs(dfc[c]).max()), uni._param_magnitude(u))) + (1 - fin.mean())
+        mech = 'C01:sampled-column-not-distributed-as-fitted-marginal'
+        latent_var = float(np.asarray(model.correlation, dtype=float)[j, j])
+        if d > eps and latent_var < 0.5:
+            # the fitted marginal sends every training value of this non-constant column to the same clipped
+            # probability (a diverged scipy MLE): the column then gets latent variance ~0 like a constant one and
+            # every sampled value is the marginal's median (known finding F31)
+            mech = 'C01:sampled-column-degenerate:zero-latent-variance-after-diverged-marginal-fit'
+        ctx.check(d <= eps, 'sample.marginal-dkw', mech,
+                  lambda: dict(where, column=repr(c), marginal=type(u).__name__, ks=d, band=eps, latent_variance=latent_var,
+                               params={k: float(v) for k, v in (getattr(getattr(u, '_instance', None) or u, '_params', {}) or {}).items()
+                                       if isinstance(v, (int, float, np.floating))}))
         ctx.maxstat('sample-vs-fitted-marginal KS / band', d / eps, where)
         cont.append(len(np.unique(col)) > 0.9 * n)
     m = min(n, 3000)
